@@ -215,16 +215,19 @@ def r3_one_rebuild(ctx):
     p = ctx.program
     f = p.func('db.sqlite3', 'SQLiteAlterTableSQLResult.to_sql')
     g = ctx.cfg(f)
+    from ..util import nodes_emitting
     emitters = []
-    for n in g.nodes:
-        for a in n.walk():
-            s = const_str(a)
-            if s and s.lstrip().upper().startswith(('CREATE TABLE',
-                                                    'INSERT INTO')):
-                emitters.append((n, a, s.split('(')[0].strip()))
-            if isinstance(a, ast.Call) and call_name(a) in ('delete_table',
-                                                            'rename_table'):
-                emitters.append((n, a, call_name(a)))
+    for what, pred in (
+            ('CREATE TABLE', lambda a: (const_str(a) or '').lstrip().upper()
+             .startswith('CREATE TABLE')),
+            ('INSERT INTO', lambda a: (const_str(a) or '').lstrip().upper()
+             .startswith('INSERT INTO')),
+            ('delete_table', lambda a: isinstance(a, ast.Call) and
+             call_name(a) == 'delete_table'),
+            ('rename_table', lambda a: isinstance(a, ast.Call) and
+             call_name(a) == 'rename_table')):
+        for n in nodes_emitting(ctx, f, g, pred):
+            emitters.append((n, n.ast, what))
     ctx.floor('rebuild emission sites in SQLite to_sql', len(emitters), 4)
     for n, a, what in emitters:
         if g.in_loop(n):
